@@ -79,6 +79,10 @@ def raise_key_error_for_invalid_unicode(unicode_digit: int) -> None:
             "Unicode digit %d is invalid because "
             "it is in the range D800 through DFFF" % unicode_digit,
         )
+    if unicode_digit > 0x10FFFF:
+        raise PDFKeyError(
+            "Unicode digit %d is invalid because it is beyond U+10FFFF" % unicode_digit,
+        )
 
 
 class EncodingDB:
